@@ -7,9 +7,11 @@ for d in seeded/*/; do
   name=$(basename "$d")
   # the check recorded as detecting it (the target check, except where meta.json names a sibling)
   id=$(python3 -c "import json;m=json.load(open('$d/meta.json'));print((m.get('detected_by') or {}).get('check') or m['breaks_property'])")
-  line=$(tools/run_seeded.sh "/verif/$d" "$id" 2>&1 | tail -1)
+  # changes recorded as not decided (meta.json: expected_exit 2, see DESIGN.md 6.4) must stay undecided, never pass
+  want=$(python3 -c "import json;m=json.load(open('$d/meta.json'));print(m.get('expected_exit',1) if not m.get('detected_by') else 1)")
+  line=$(tools/run_seeded.sh "/verif/$d" "$id" 2>&1 | grep -m1 'exit=')
   echo "$line"
-  case "$line" in *"exit=1"*) ;; *) miss=1 ;; esac
+  case "$line" in *"exit=$want"*) ;; *) miss=1 ;; esac
 done
 rm -f replays/*.json
 exit $miss
